@@ -30,7 +30,7 @@ ANCHORS = [
     "acnportal.acnsim.models.evse:BaseEVSE.plugin",
     "acnportal.acnsim.models.evse:BaseEVSE.unplug",
 ]
-REQUIRED = ["runs_judged", "plug_events", "unplug_events", "regime:back-to-back-reuse", "regime:simultaneous-events",
+REQUIRED = ["runs_judged", "second_simulations_built_from_objects_of_the_first", "second_simulation_shares:events", "second_simulation_shares:network", "plug_events", "unplug_events", "regime:back-to-back-reuse", "regime:simultaneous-events",
             "regime:recompute-after-last-departure", "regime:one-period-session", "connectivity_runs", "second_runs_on_a_reused_queue", "regime:over-128-events-due-at-once", "sched:scripted",
             "sched:uncontrolled", "sched:sorted", "snapshots_checked", "runs_where_a_waiting_ev_took_over_a_freed_space", "simulators_built_on_an_empty_queue_filled_afterwards", "runs_with_all_events_beyond_period_100000", "runs_with_user_defined_arrival_events", "runs_where_the_scheduler_adds_the_next_arrival_from_inside_the_run"]
 BUDGET_S = {"quick": 240, "thorough": 3000}
@@ -108,7 +108,13 @@ def cases(seed, tier):
             d = gen.scenario(rng, sched="sorted", kinds=("EVSE", "FR"), noise_p=0.2, constraint_free_p=0.15)
         if rng.random() < 0.06:
             d["arrival_event"] = "user"
-        out.append({"desc": d, "reuse_queue": rng.random() < 0.12, "late_fill": rng.random() < 0.1})
+        c_ = {"desc": d, "reuse_queue": rng.random() < 0.12, "late_fill": rng.random() < 0.1}
+        if rng.random() < 0.15 and not c_["reuse_queue"]:
+            # what a second simulator of the same process is built from: objects that already served the first one
+            c_["second_life"] = sorted(set(rng.choice([["events"], ["events"], ["network"], ["scheduler"], ["events", "network"],
+                                                        ["events", "network", "scheduler"]])))
+            c_["reset_evs"] = rng.random() < 0.5
+        out.append(c_)
     # networks that assign spaces at run time (contrib StochasticNetwork): sessions name no space of their own, more cars than
     # spaces, so late arrivals wait and take over a freed space (their station changes after their plug-in event)
     for i in range(n // 8):
@@ -168,6 +174,27 @@ def run_case(case, obs):
     if case.get("late_fill"):
         obs.ev("simulators_built_on_an_empty_queue_filled_afterwards")
     _judge(case, obs, d, sim, evs, probe)
+    if case.get("second_life") and probe.exception is None and not d.get("hold_back"):
+        # a second simulation in the same process, built from objects that already served the first: the very event objects (and
+        # with them the EV objects, after their public reset() or as they are), the emptied network object, the scheduler object.
+        # It is a simulation like any other: plug-in / unplug exactly once, order, occupancy, termination
+        share = case["second_life"]
+        kw = {}
+        if "events" in share:
+            kw["event_objs"] = [e_ for e_ in sim.event_history if getattr(e_, "event_type", None) in ("Plugin", "Recompute")]
+            if case.get("reset_evs"):
+                for e_ in kw["event_objs"]:
+                    if hasattr(e_, "ev"):
+                        e_.ev.reset()
+        if "network" in share:
+            kw["network"] = sim.network
+        sim2, evs2, probe2 = simrun.run_traced(d, scheduler=sim.scheduler if "scheduler" in share else None, **kw)
+        obs.ev("second_simulations_built_from_objects_of_the_first")
+        for x_ in share:
+            obs.ev("second_simulation_shares:" + x_)
+        keep = obs.sample
+        _judge(dict(case, second=True), obs, dict(d, connectivity=False), sim2, evs2, probe2)
+        obs.sample = keep
     if case.get("reuse_queue") and probe.exception is None and sim.event_queue.empty():
         # the drained EventQueue object is refilled and handed to a second, fresh simulator (starts at period 0 again)
         sim2, evs2, probe2 = simrun.run_traced(d, queue=sim.event_queue, late_fill=bool(case.get("late_fill")))
